@@ -12,10 +12,13 @@ EXTENDS XmlLex, TLC, Json
 
 CONSTANTS K,          \* max number of fragments
           CfgMode,    \* "neutral" | "default" | "cover" | "all"
+          FragMode,   \* "markup" | "bytes"
           Emit,       \* TRUE: print REPLAY lines
           KnownDevs   \* deviations of known findings (for the `alt` expectation)
 
-Frags == { <<60>>, <<62>>, <<47>>, <<63>>, <<33>>, <<45>>, <<45, 45>>,
+FragsBytes == { <<0>>, <<128>>, <<255>>, <<97>>, <<60>>, <<62>>, <<33>>, <<63>>, <<47>>, <<45>>,
+                <<91>>, <<93>>, <<34>>, <<39>>, <<32>>, <<68>>, <<61>> }
+FragsMarkup == { <<60>>, <<62>>, <<47>>, <<63>>, <<33>>, <<45>>, <<45, 45>>,
            <<91, 67, 68, 65, 84, 65, 91>>, <<93>>, <<93, 93>>,
            <<68, 79, 67, 84, 89, 80, 69>>, <<100>>, <<120, 109, 108>>, <<32>>,
            <<97>>, <<98>>, <<34>>, <<39>>, <<61>>, <<195, 169>> }
@@ -31,6 +34,8 @@ Seeds == { <<60,33,45,45,45,62,45,45,62>>,                         \* <!--->-->
            <<60,33,45,45,97,45,45,45,62>>, <<60,33,45,45,45,45,97,45,45,62>>,
            <<60,97,47,62,60,47,97,62,60,47,98,62>>,
            <<239,187,191,60,97,62>> }
+
+Frags == IF FragMode = "bytes" THEN FragsBytes ELSE FragsMarkup
 
 RECURSIVE Strs(_)
 Strs(n) == IF n = 0 THEN {<<>>} ELSE LET S == Strs(n - 1) IN S \cup {x \o f : x \in S, f \in Frags}
@@ -115,11 +120,21 @@ RunAll(s, c, state, dev, ne) ==
     ELSE LET r == ReadEvent(s, c, state, dev) IN
          <<ObsRow(Obs(r), r.st.errpos)>> \o RunAll(s, c, r.st, dev, IF r.ev.k = "Eof" THEN ne + 1 ELSE ne)
 
+\* C08: what writing every successfully read event produces (reader and writer
+\* specifications composed)
+RECURSIVE Written(_, _, _, _)
+Written(s, c, state, ne) ==
+    IF ne = 1 THEN <<>>
+    ELSE LET r == ReadEvent(s, c, state, {}) IN
+         (IF r.ev.k \in {"Err", "Eof"} THEN <<>> ELSE Render(s, r.ev))
+         \o Written(s, c, r.st, IF r.ev.k = "Eof" THEN 1 ELSE 0)
+
 CfgBits(c) == <<Bit(c, "aue"), Bit(c, "cc"), Bit(c, "cen"), Bit(c, "eee"), Bit(c, "tmn"), Bit(c, "tts"), Bit(c, "tte")>>
 Inv_Emit ==
     (Emit /\ k = 0) =>
         LET a == RunAll(inp, cfg, InitSt, {}, 0)
             b == RunAll(inp, cfg, InitSt, KnownDevs, 0) IN
         PrintT(<<"REPLAY", ToJson([in |-> raw, bom |-> BomLen(raw, FALSE), cfg |-> CfgBits(cfg), obs |-> a,
+                                   wr |-> IF NoTrim THEN Written(inp, cfg, InitSt, 0) ELSE <<>>,
                                    alt |-> IF a = b THEN <<>> ELSE b])>>)
 =============================================================================
